@@ -88,6 +88,12 @@ func translateArgs(args []string) []string {
 		return args
 	}
 
+	switch args[0] {
+	case "server", "decrypt", "make-iso":
+		// a command, even if a directory of that name happens to exist in the working directory
+		return args
+	}
+
 	if st, err := os.Stat(args[0]); err == nil && st.IsDir() {
 		return append([]string{"server", "--root=" + args[0]}, args[1:]...)
 	}
